@@ -9,5 +9,7 @@ func main() {
 			Stmts: []string{"bucket := mid", "bucket -= bucket %"}},
 		xlate.Spec{Pkg: "frac/processor", Name: "provideExtractTimeFunc", As: "extractBin",
 			Stmts: []string{"return mid - (mid %"}},
+		// which arm of `switch resp.Code` in searchShard is taken (0 = none: the response is data)
+		xlate.Spec{Pkg: "proxy/search", Recv: "Ingestor", Name: "searchShard", As: "shardCodeArm", Stmts: []string{"switch resp.Code"}},
 	)
 }
